@@ -690,7 +690,10 @@ func c18FactsFor(codec string, built string, pieces [][]byte) c18Facts {
 			if i == 0 && codec == "gzip" {
 				f.initErr = true
 			} else {
+				// a later member/frame whose header the library rejects: the stream fails there,
+				// and (gzip multistream) the error comes with the previous member's last bytes
 				f.tailErr = true
+				f.ewd = c18ErrWithData(codec, whole, f.total())
 			}
 			return f
 		}
